@@ -13,7 +13,7 @@ use std::time::Instant;
 use tracing_core::dispatch::{self, DefaultGuard, Dispatch};
 use vcs::{Fresh, Kind};
 use vlib::exec::Workers;
-use vlib::rec::{FilterCollector, Got, Shared, Spec};
+use vlib::rec::{FilterCollector, Got, Shared, SharedBye, Spec};
 use vlib::run::{self, Finish};
 use vlib::{chaos, json, stamps, Args, ChildSpec, Map, Mode, Out, Rng, Value};
 
@@ -172,7 +172,7 @@ fn mk_collectors(rng: &mut Rng, n: usize) -> (Vec<Arc<FilterCollector>>, Vec<Dis
 }
 
 fn who() -> Option<u64> {
-    dispatch::get_default(|d| d.downcast_ref::<Shared>().map(|s| s.0.cid))
+    dispatch::get_default(|d| d.downcast_ref::<Shared>().map(|s| s.0.cid).or_else(|| d.downcast_ref::<SharedBye>().map(|s| s.inner.cid)))
 }
 
 fn received(arcs: &[Arc<FilterCollector>]) -> Vec<(usize, u64)> {
@@ -191,11 +191,22 @@ fn child_hist(args: &Args) {
     let mut out = Out::new();
     let mut rng = Rng::derive(args.seed, 0xC02, args.shard);
     let fresh = Fresh::new();
-    let (arcs, mut ds) = mk_collectors(&mut rng, 4);
+    let (mut arcs, mut ds) = mk_collectors(&mut rng, 4);
     // index 4 = `Dispatch::none()` installed as a scope: emissions inside it are discarded,
     // whatever the global default is
     const NONE_K: usize = 4;
     ds.push(Dispatch::none());
+    // index 5 = a scope that owns its collector: the thread-local slot holds the only Dispatch
+    // clone, so closing the scope drops the collector, and the collector emits one event from
+    // its Drop.  That event is an emission like any other: it goes where the model says an
+    // emission made right after the close goes (the enclosing scope, else the global default,
+    // else nowhere).  Events inside the scope are recorded by arcs[5]; arcs[4] is never installed.
+    const OWNED_K: usize = 5;
+    let all = Spec { thresh: 5, targets: 0b1111, dynamic: false, hint: None };
+    arcs.push(Arc::new(FilterCollector::new(5, all, true)));
+    arcs.push(Arc::new(FilterCollector::new(6, all, true)));
+    ds.push(Dispatch::none());
+    let mut bye_ids: Vec<Vec<u64>> = vec![vec![]];
     let mut workers: Vec<Workers> = vec![Workers::new(1)];
     let mut stacks: Vec<Vec<usize>> = vec![vec![]];
     let mut touched_before_global: Vec<bool> = vec![false];
@@ -236,11 +247,30 @@ fn child_hist(args: &Args) {
         let _ = any_scope;
         match rng.weighted(&w) {
             0 => {
-                let k = if rng.chance(1, 6) { NONE_K } else { rng.usize(4) };
-                ops.push(format!("Open(t{t}, {})", if k == NONE_K { "Dispatch::none()".to_string() } else { format!("k{k}") }));
-                let d = ds[k].clone();
+                let k = match rng.below(12) {
+                    0 | 1 => NONE_K,
+                    2 | 3 => OWNED_K,
+                    _ => rng.usize(4),
+                };
+                let d = if k == OWNED_K {
+                    let id = opid;
+                    opid += 1;
+                    bye_ids[t].push(id);
+                    let emit = fresh.take(1 + rng.usize(5), rng.usize(4), Kind::Event).expect("HARNESS: pool exhausted").emit;
+                    ops.push(format!("Open(t{t}, owned collector k{k}; its Drop emits op{id})"));
+                    Dispatch::new(SharedBye {
+                        inner: arcs[OWNED_K].clone(),
+                        on_drop: Box::new(move || {
+                            let _ = emit(id);
+                        }),
+                    })
+                } else {
+                    ops.push(format!("Open(t{t}, {})", if k == NONE_K { "Dispatch::none()".to_string() } else { format!("k{k}") }));
+                    ds[k].clone()
+                };
                 if let Err(p) = workers[t].run(0, move || {
                     let g = dispatch::set_default(&d);
+                    drop(d);
                     GUARDS.with(|gs| gs.borrow_mut().push(g));
                 }) {
                     fail!("panic in set_default", json!({"panic": p}));
@@ -258,6 +288,28 @@ fn child_hist(args: &Args) {
                     drop(g);
                 }) {
                     fail!("panic dropping DefaultGuard", json!({"panic": p}));
+                }
+                if k == OWNED_K {
+                    let id = bye_ids[t].pop().expect("HARNESS: bye id");
+                    let expected: Option<usize> = match stacks[t].last().copied() {
+                        Some(NONE_K) => None,
+                        Some(k) => Some(k),
+                        None => global,
+                    };
+                    let got = received(&arcs);
+                    let want: Vec<(usize, u64)> = expected.map(|k| vec![(k, id)]).unwrap_or_default();
+                    out.evals += 1;
+                    out.count("scope_closes_that_dropped_a_collector_emitting_from_its_drop", 1);
+                    out.distinct_str(&format!("bye|{}|{foreign_scope}|{}", stacks[t].len(), global.is_some()));
+                    if global.is_none() && stacks[t].is_empty() && foreign_scope {
+                        touched_before_global[t] = true;
+                    }
+                    if got != want {
+                        fail!(
+                            "the event a collector emitted while the closing scope dropped it was not received by the collector the model selects after the close",
+                            json!({"expected": format!("{want:?}"), "received": format!("{got:?}")})
+                        );
+                    }
                 }
             }
             k @ (2 | 3) => {
@@ -341,6 +393,7 @@ fn child_hist(args: &Args) {
                 ops.push(format!("Spawn(t{nt})"));
                 workers.push(Workers::new(1));
                 stacks.push(vec![]);
+                bye_ids.push(vec![]);
                 touched_before_global.push(false);
             }
             k @ (6 | 7) => {
